@@ -76,6 +76,12 @@ def regen_consts(ctx):
         for mm in call_pat.finditer(mb.group(0) if mb else ""):
             toks.append(mm.group(1) + "(" + (" ".join(mm.group(2).split()) if mm.group(0).endswith(")") else "...") + ")")
         calls.append((meth, toks))
+    # the conditions of every `if` (and of the `}); cond {` that closes Stream's iteration), in source order: the error handling
+    conds = []
+    for meth in ["Set", "Get", "Has", "Delete", "Stream", "Commit", "has", "addSize", "Size"]:
+        mb = re.search(r"func \(m \*authenticatedMap\[[^\]]*\]\) " + meth + r"\(.*?\n}\n", src, re.S)
+        cs = [" ".join(c.split()) for c in re.findall(r"(?:\bif |\}\); )([^\n]*?) \{\n", mb.group(0) if mb else "")]
+        conds.append((meth, [re.sub(r"func\(.*$", "func...", c) for c in cs]))
     nilrule = re.search(r"if valueBytes == nil \{\s*(valueBytes = [^\n]*)\s*\}", src)
 
     def lstr(xs):
@@ -95,6 +101,8 @@ def regen_consts(ctx):
             f"def nilValueRule : String := {lstr([' '.join(nilrule.group(1).split()) if nilrule else '?'])[1:-1]}"]
     for meth, toks in calls:
         out.append(f"def calls_{meth} : List String := {lstr(toks)}")
+    for meth, cs in conds:
+        out.append(f"def conds_{meth} : List String := {lstr(cs)}")
     out += ["", "end Hive.Gen.C09Consts", ""]
     checklib.write_gen(ctx, os.path.join(checklib.LEAN, "Hive", "Gen", "C09_Consts.lean"), "\n".join(out))
     return fails
@@ -137,7 +145,7 @@ SPEC = {
                  "C09_skeleton_has", "C09_skeleton_get", "C09_skeleton_stream", "C09_skeleton_restored",
                  "C09_skeleton_has_helper", "C09_skeleton_addSize",
                  "C09_skeleton_constructor", "C09_skeleton_set_flavour", "C09_skeleton_type_map", "C09_skeleton_adapter",
-                 "C09_layout_regenerated", "C09_calls_regenerated",
+                 "C09_layout_regenerated", "C09_calls_regenerated", "C09_conditions_regenerated",
                  "C09_id_codec_invisible", "C09_id_codec_run", "C09_id_reopen_after_commit", "C09_id_restored_iff_commit",
                  "C09_id_decoder_failure", "C09_id_import_through_codec_witness",
                  "C09_typed_refines", "C09_typed_root_eq_iff", "C09_stack_refines", "C09_typed_size_eq_card", "C09_typed_stream_complete", "C09_typed_stream", "C09_typed_stream_key_decode_error_witness", "C09_typed_set_flavour",
